@@ -398,12 +398,12 @@ func checkLineBookkeeping(c *Ctx, u *Universe) {
 				var starts []Val
 				pe.oracle = t.oracle(func(id string, call *ast.CallExpr, pe *PE, st *peState) (Val, bool) {
 					if id == "builtin.append" && len(call.Args) >= 2 {
-						if sel, ok := call.Args[0].(*ast.SelectorExpr); ok && sel.Sel.Name == "Lines" {
+						if sel, ok := call.Args[0].(*ast.SelectorExpr); ok && astFieldName(info, sel.Sel) == "Lines" {
 							// record the StartIdx of the appended line
 							if cl, ok := call.Args[1].(*ast.CompositeLit); ok {
 								for _, el := range cl.Elts {
 									if kv, ok := el.(*ast.KeyValueExpr); ok {
-										if id, ok := kv.Key.(*ast.Ident); ok && id.Name == "StartIdx" {
+										if id, ok := kv.Key.(*ast.Ident); ok && astFieldName(info, id) == "StartIdx" {
 											starts = append(starts, pe.eval(st, kv.Value))
 										}
 									}
